@@ -205,3 +205,18 @@ func (v VerifBackoff) Reset()                  { v.b.reset() }
 // VerifAbruptClose closes the Engine.IO connection under a server socket without any Socket.IO
 // farewell (what the repo's own reconnection tests do with s.conn.eio.Close()).
 func VerifAbruptClose(s ServerSocket) { s.(*serverSocket).conn.eio.Close() }
+
+// ---- Engine.IO objects under the Socket.IO ones (C07: the harness drives the real upgrade state machines)
+
+// VerifEIO returns the manager's current Engine.IO client socket.
+func (m *Manager) VerifEIO() eio.ClientSocket {
+	m.eioMu.RLock()
+	defer m.eioMu.RUnlock()
+	return m.eio
+}
+
+// VerifEIOServer returns the Engine.IO server under the Socket.IO server.
+func (s *Server) VerifEIOServer() *eio.Server { return s.eio }
+
+// VerifEIOSocketOf returns the Engine.IO socket that carries a server socket.
+func VerifEIOSocketOf(s ServerSocket) eio.ServerSocket { return s.(*serverSocket).conn.eio }
